@@ -23,13 +23,15 @@ def gen_group(rng):
     gates = [rng.choice(["", "", "50", "100", "80", "150", "200", "300", "1"]) for _ in range(n)]     # a note's own gate may exceed 100 %
     # the mark may carry a value (`&2`, `&48`, `&$20`): any value other than 0 ties the note to the next one
     ties = [rng.choice(["&", "&", "&", "&1", "&2", "&3", "&48", "&$20"]) for _ in range(n)]
-    return pitches, lens, gates, ties
+    # the slots after the velocity (timing, octave) may be written too: the mark follows the last slot written
+    tails = [rng.choice(["", "", "", ",,4", ",,5", ",,6", ",3", ",-2,5", ",0,6"]) for _ in range(n)]
+    return pitches, lens, gates, ties, tails
 
 def render_group(g, tied, mark=111):
-    pitches, lens, gates, ties = g
+    pitches, lens, gates, ties, tails = g
     out = []
     for i, (p, l, q) in enumerate(zip(pitches, lens, gates)):
-        s = p + l + "," + q + ",%d" % mark      # velocities 111..113 mark the notes of tied groups (one value per group)
+        s = p + l + "," + q + ",%d" % mark + tails[i]      # velocities 111..113 mark the notes of tied groups (one value per group)
         if tied and i < len(pitches) - 1: s += ties[i]
         out.append(s)
     return " ".join(out)
